@@ -92,7 +92,7 @@ def check_case(case):
     res["state"] = "img:{}".format(zlib.crc32(img))
     if viol:
         res["viol"] = viol
-    if zlib.crc32(repr(case).encode()) % 503 == 0:
+    if zlib.crc32(repr(case).encode()) % 101 == 0:
         res["sample"] = {"case": cell, "image_len": len(img), "blocks": [f["blocks"][:4] for f in (files or [])]}
     return res
 
